@@ -998,7 +998,9 @@ theorem newIndex_spec {config : IndexConfig} {index : Index} (h : newIndex confi
     · rename_i cols hc
       split at h
       · cases h
-      · simp only [Except.ok.injEq] at h; subst h; exact ⟨rfl, hc, rfl⟩
+      · split at h
+        · cases h
+        · simp only [Except.ok.injEq] at h; subst h; exact ⟨rfl, hc, rfl⟩
 
 theorem newIndex_coherent {config : IndexConfig} {index : Index} (h : newIndex config = .ok index) :
     IndexCoherent sch (fun _ => False) index := by
